@@ -3,3 +3,7 @@ import ExaModel.Props.C04
 #print axioms Exa.Props.C04.c04_converges_from
 #print axioms Exa.Props.C04.c04_withdrawn_stays_withdrawn
 #print axioms Exa.Props.C04.c04_last_announce_wins
+#print axioms Exa.Props.C04.flushed_not_pending
+#print axioms Exa.Props.C04.drain_quiet
+#print axioms Exa.Props.C04.c04_drained_is_silent
+#print axioms Exa.Props.C04.c04_drained_steps_silent
